@@ -119,6 +119,9 @@ META = dict(
 META["rule"] += (
     " " + 'Added after the second round of seeded changes: CouplingAnalysis receives the data in the representation a caller may hold it in (Fortran order, strided view, read-only, float32 / int64 when exact).')
 
+META["rule"] += (
+    " " + 'Added after the third round: 30 % of the climate networks built with non_local=True; the pure-Python twin with only_tri=True (upper triangle equal, lower triangle lag-mirrored); nearly collinear series for the partial correlation (cond 1e3 .. 1e7); CoupledTsonisClimateNetwork correlation; records of 200004 .. 600000 samples (histogram cells beyond 16 bit) and lags of 128 .. 260.')
+
 # --------------------------------------------------------------------------
 # helpers
 # --------------------------------------------------------------------------
